@@ -656,3 +656,211 @@ func (x *gen) directedSelfAck() {
 	}
 	c.exec("flush 6")
 }
+
+// directedOddCalls: API calls in states where they must be refused or ignored: Campaign at a node
+// that cannot be promoted, a leadership transfer to a learner or to the leader itself, local
+// message types stepped as if they came from a peer, proposals at a node without a leader.
+func (x *gen) directedOddCalls() {
+	c := x.c
+	c.exec("flush 3")
+	for _, n := range c.alive() {
+		d := n.rn.VerifState()
+		pr, ok := d.Progress[n.id]
+		if !ok || pr.IsLearner || d.IsLearner {
+			c.exec(fmt.Sprintf("campaign %d", n.id))
+			c.exec(fmt.Sprintf("process %d", n.id))
+		}
+		if x.g.Intn(2) == 0 {
+			c.exec(fmt.Sprintf("steplocal %d %d", n.id, x.g.Intn(5)))
+		}
+	}
+	if l := x.leader(); l != nil {
+		d := l.rn.VerifState()
+		for id, pr := range d.Progress {
+			if pr.IsLearner {
+				c.exec(fmt.Sprintf("transfer %d %d", l.id, id))
+				break
+			}
+		}
+		c.exec(fmt.Sprintf("transfer %d %d", l.id, l.id))
+		c.exec(fmt.Sprintf("transfer %d 99", l.id)) // unknown node
+		c.exec(fmt.Sprintf("unreach %d 99", l.id))
+		c.exec(fmt.Sprintf("process %d", l.id))
+	}
+	c.exec("flush 3")
+}
+
+// directedSnapInactive (CheckQuorum): a follower is down long enough to be marked inactive while the
+// leader compacts its log past it; the leader then has to decide about a snapshot for it.
+func (x *gen) directedSnapInactive() {
+	c := x.c
+	l := x.leader()
+	if l == nil || len(c.alive()) < 3 || !c.base.CheckQuorum {
+		x.idle()
+		return
+	}
+	c.exec("flush 4")
+	if !l.alive || l.rn == nil {
+		return
+	}
+	f := x.others(l.id)[x.g.Intn(len(x.others(l.id)))]
+	c.exec(fmt.Sprintf("crash %d", f.id))
+	for i := 0; i < 3; i++ {
+		c.exec(fmt.Sprintf("propose %d", l.id))
+	}
+	for r := 0; r < 2*l.cfg.ET+2 && !c.stopped; r++ {
+		c.exec("tickall")
+		c.exec("flush 2")
+	}
+	if l = x.leader(); l == nil {
+		c.exec(fmt.Sprintf("restart %d", f.id))
+		c.exec("flush 5")
+		return
+	}
+	c.exec(fmt.Sprintf("snapshot %d", l.id))
+	c.exec(fmt.Sprintf("compact %d 1000", l.id))
+	c.exec(fmt.Sprintf("propose %d", l.id)) // the leader tries to replicate to the inactive follower
+	c.exec(fmt.Sprintf("process %d", l.id))
+	c.exec(fmt.Sprintf("unreach %d %d", l.id, f.id))
+	c.exec(fmt.Sprintf("propose %d", l.id))
+	c.exec(fmt.Sprintf("process %d", l.id))
+	c.exec(fmt.Sprintf("restart %d", f.id))
+	c.exec("flush 6")
+}
+
+// directedSnapTerm (asynchronous storage writes): a follower accepts a snapshot; before its append
+// thread has written it, the follower learns of a higher term; then the write is acknowledged with
+// the old term.
+func (x *gen) directedSnapTerm() {
+	c := x.c
+	l := x.leader()
+	if l == nil || !c.base.Async || len(c.alive()) < 3 {
+		x.idle()
+		return
+	}
+	c.exec("flush 4")
+	if !l.alive || l.rn == nil {
+		return
+	}
+	rest := x.others(l.id)
+	f := rest[0]
+	var o *Node
+	for _, n := range rest {
+		if n != f {
+			o = n
+		}
+	}
+	// f falls behind a compaction
+	x.isolate(f)
+	for i := 0; i < 3; i++ {
+		c.exec(fmt.Sprintf("propose %d", l.id))
+	}
+	for r := 0; r < 4; r++ {
+		for _, n := range x.others(f.id) {
+			c.exec(fmt.Sprintf("process %d", n.id))
+		}
+		x.deliverAll()
+	}
+	c.exec(fmt.Sprintf("snapshot %d", l.id))
+	c.exec(fmt.Sprintf("compact %d 1000", l.id))
+	c.exec("unblock")
+	usnap := func() bool {
+		if !f.alive || f.rn == nil {
+			return false
+		}
+		d := f.rn.VerifState()
+		return d.UnstableSnapshot != nil
+	}
+	for r := 0; r < 10 && !usnap() && !c.stopped; r++ {
+		c.exec(fmt.Sprintf("tick %d", l.id))
+		c.exec(fmt.Sprintf("process %d", l.id))
+		x.deliverAll()
+		if usnap() {
+			break
+		}
+		c.exec(fmt.Sprintf("process %d", f.id))
+		x.deliverAll()
+	}
+	if !usnap() || o == nil {
+		c.exec("flush 5")
+		return
+	}
+	c.exec(fmt.Sprintf("sub %d", f.id)) // the snapshot is handed to the append thread
+	// o campaigns: f sees a higher term before the write is done
+	x.net0()
+	c.exec(fmt.Sprintf("campaign %d", o.id))
+	c.exec(fmt.Sprintf("process %d", o.id))
+	for i := 0; i < len(c.net) && !c.stopped; {
+		if m := c.net[i]; m.GetTo() != f.id {
+			c.exec(fmt.Sprintf("drop %d", i))
+			continue
+		}
+		c.exec(fmt.Sprintf("deliver %d", i))
+	}
+	c.exec(fmt.Sprintf("sub %d", f.id))
+	for len(f.app.appendQ) > 0 && f.alive && !c.stopped {
+		c.exec(fmt.Sprintf("appendthread %d", f.id))
+	}
+	c.exec("flush 6")
+}
+
+// directedXferRemoved: the target of a pending leadership transfer is removed from the
+// configuration by a change that the leader applies while the transfer is pending.
+func (x *gen) directedXferRemoved() {
+	c := x.c
+	l := x.leader()
+	if l == nil || len(c.alive()) < 3 || c.base.Async {
+		x.idle()
+		return
+	}
+	c.exec("flush 4")
+	if !l.alive || l.rn == nil {
+		return
+	}
+	d := l.rn.VerifState()
+	if len(d.Config.Voters[1]) > 0 || len(d.Config.Voters[0]) < 3 {
+		x.idle()
+		return
+	}
+	var t *Node
+	for _, n := range x.others(l.id) {
+		if _, ok := d.Config.Voters[0][n.id]; ok {
+			t = n
+		}
+	}
+	if t == nil {
+		x.idle()
+		return
+	}
+	c.exec(fmt.Sprintf("proposecc %d v1:remove:%d", l.id, t.id))
+	// replicate and commit; stop the leader when it holds the Ready that hands the change out, before
+	// the application applies it
+	ready := func() bool {
+		if l.app.stage != 3 || l.app.rd == nil {
+			return false
+		}
+		for _, e := range l.app.rd.CommittedEntries {
+			if e.GetType() != pb.EntryNormal {
+				return true
+			}
+		}
+		return false
+	}
+	for r := 0; r < 6 && !ready() && !c.stopped; r++ {
+		for _, n := range x.others(l.id) {
+			c.exec(fmt.Sprintf("process %d", n.id))
+		}
+		x.deliverAll()
+		for st := 0; st < 5 && !ready(); st++ {
+			c.exec(fmt.Sprintf("sub %d", l.id))
+		}
+	}
+	if ready() {
+		x.isolate(t)
+		c.exec(fmt.Sprintf("transfer %d %d", l.id, t.id)) // pending: the target cannot answer
+		c.exec(fmt.Sprintf("sub %d", l.id))               // the application applies the removal
+		c.exec(fmt.Sprintf("sub %d", l.id))
+		c.exec("unblock")
+	}
+	c.exec("flush 5")
+}
